@@ -75,6 +75,19 @@ def _mcs_worker(args):
         finally:
             RC2.compute = orig_compute
         rec["result"] = [sorted(x) for x in res]
+        # hypothesis of C15_blocking_constraint on this very call: helper variables and formula variables are numbered apart, i.e.
+        # the shared id pool is injective (RC2 maps ids above the formula's own to fresh internal variables, so its selectors do not count)
+        clash = []
+        try:
+            pool = self.epistemic_state.get("pool")
+            seen_h = {}
+            for o, i in list(pool.obj2id.items()) if pool is not None else []:
+                if i in seen_h:
+                    clash.append([str(o)[:30], i, "id also held by %s" % str(seen_h[i])[:30]])
+                seen_h[i] = o
+        except Exception:  # noqa  (a renamed internal: the family comparison below still decides)
+            pass
+        rec["helper_clash"] = clash
         calls.append(rec)
         return res
 
@@ -209,6 +222,9 @@ def run(tier, seed, broken_proof=False):
             violations.append({"kind": "oracle-contract", "case": byid[cid], "detail": bad, "found_by": "generated",
                                "theorem_or_observable": "RC2 answer violates the MaxSAT oracle contract assumed by the loop theorem"})
         for j, rec in enumerate(calls):
+            if rec.get("helper_clash"):
+                violations.append({"kind": "helper-variables", "case": byid[cid], "clash": rec["helper_clash"], "hard": rec["hard"], "found_by": "none",
+                                   "theorem_or_observable": "hypothesis of C15_blocking_constraint not met on an observed call (helper variables fresh and distinct): the blocking theorem no longer covers this call"})
             groups = [(k, cl) for k, cl in rec["nf"].items() if k not in rec["ignore"]]
             vars_ = sorted({abs(l) for c in rec["hard"] for l in c} | {abs(l) for _, cl in groups for c in cl for l in c})
             if len(vars_) > MAXV:
